@@ -34,6 +34,8 @@ type lockFacts struct {
 	noCalloutUnderLock         bool
 	lockedMethods              []string
 	helperMethods              []string
+	entryPoints                []string
+	entryPointsAtomic          bool
 	numStateAccesses           int
 	numClosedAccesses          int
 	numClosedWrites            int
@@ -70,11 +72,13 @@ func genLockFacts(repo string, root *pkg) {
 	}
 	fmt.Fprintf(&b, "/-- eventList methods with the lock prologue (sorted) -/\ndef lockedMethods : List String := %s\n", q(f.lockedMethods))
 	fmt.Fprintf(&b, "/-- eventList methods without it that touch the table and are called only under the lock (sorted) -/\ndef helperMethods : List String := %s\n", q(f.helperMethods))
+	fmt.Fprintf(&b, "/-- eventList methods called from outside eventList, i.e. by the Reassembler (sorted) -/\ndef entryPoints : List String := %s\n", q(f.entryPoints))
+	bl("entryPointsAtomic", f.entryPointsAtomic, "every entry point has the lock prologue or only delegates to one method that has it")
 	fmt.Fprintf(&b, "def numStateAccesses : Nat := %d\n", f.numStateAccesses)
 	fmt.Fprintf(&b, "def numClosedAccesses : Nat := %d\n", f.numClosedAccesses)
 	fmt.Fprintf(&b, "def numClosedWrites : Nat := %d\n", f.numClosedWrites)
 	fmt.Fprintf(&b, "def numClearCalls : Nat := %d\n", f.numClearCalls)
-	b.WriteString("def allHold : Bool :=\n  listStateOnlyUnderLock && closedOnlyAtomic && closedSingleCasGuardsClear && noCalloutUnderLock\n")
+	b.WriteString("def allHold : Bool :=\n  listStateOnlyUnderLock && closedOnlyAtomic && closedSingleCasGuardsClear && noCalloutUnderLock && entryPointsAtomic\n")
 	b.WriteString("end LA.Gen.LockFacts\n")
 	emit("LockFacts", &b)
 }
@@ -317,6 +321,59 @@ func computeLockFacts(root *pkg) *lockFacts {
 	}
 	sort.Strings(f.lockedMethods)
 	sort.Strings(f.helperMethods)
+	// entry points: the eventList methods called from outside eventList (the Reassembler's methods).
+	// Each must be one atomic step: it has the lock prologue itself, or it does nothing but
+	// delegate to one method that has it (`return l.m(...)` / `l.m(...)`, no table access of its own).
+	f.entryPointsAtomic = true
+	delegates := func(x *fn) bool {
+		if x.touches || len(x.decl.Body.List) != 1 {
+			return false
+		}
+		var e ast.Expr
+		switch st := x.decl.Body.List[0].(type) {
+		case *ast.ReturnStmt:
+			if len(st.Results) != 1 {
+				return false
+			}
+			e = st.Results[0]
+		case *ast.ExprStmt:
+			e = st.X
+		default:
+			return false
+		}
+		c, ok := e.(*ast.CallExpr)
+		if !ok {
+			return false
+		}
+		sel, ok := c.Fun.(*ast.SelectorExpr)
+		if !ok {
+			return false
+		}
+		callee := byObj[root.info.Uses[sel.Sel]]
+		if callee == nil || callee.recvType != "eventList" || !callee.locked {
+			return false
+		}
+		for _, a := range c.Args {
+			if _, isCall := a.(*ast.CallExpr); isCall {
+				return false
+			}
+		}
+		return true
+	}
+	seenEntry := map[string]bool{}
+	for callee, cs := range callers {
+		for _, c := range cs {
+			if c.recvType != "eventList" && !seenEntry[callee.decl.Name.Name] {
+				seenEntry[callee.decl.Name.Name] = true
+				f.entryPoints = append(f.entryPoints, callee.decl.Name.Name)
+				if !callee.locked && !delegates(callee) {
+					f.entryPointsAtomic = false
+					f.why = append(f.why, fmt.Sprintf("eventList.%s is called from %s but neither has the lock prologue nor merely delegates to a method that has it", callee.decl.Name.Name, c.decl.Name.Name))
+				}
+			}
+		}
+	}
+	sort.Strings(f.entryPoints)
 	if f.numStateAccesses == 0 {
 		f.fail(&f.listStateOnlyUnderLock, "no access to the event table found at all")
 	}
